@@ -2,6 +2,8 @@ use crate::plan::barriers::SATBBarrier;
 use crate::plan::concurrent::barrier::SATBBarrierSemantics;
 use crate::plan::concurrent::immix::ConcurrentImmix;
 use crate::plan::concurrent::Pause;
+use crate::plan::mutator_context::common_prepare_func;
+use crate::plan::mutator_context::common_release_func;
 use crate::plan::mutator_context::create_allocator_mapping;
 use crate::plan::mutator_context::create_space_mapping;
 
@@ -39,6 +41,9 @@ pub fn concurrent_immix_mutator_release<VM: VMBinding>(
     .unwrap();
     immix_allocator.reset();
 
+    // Reset the allocator of the non-moving space, like every other plan does.
+    common_release_func(mutator, _tls);
+
     // Deactivate SATB
     if current_pause == Pause::Full || current_pause == Pause::FinalMark {
         debug!("Deactivate SATB barrier active for {:?}", mutator as *mut _);
@@ -66,6 +71,20 @@ pub fn concurent_immix_mutator_prepare<VM: VMBinding>(
     .downcast_mut::<ImmixAllocator<VM>>()
     .unwrap();
     immix_allocator.reset();
+
+    // The non-moving space is prepared (its line mark state is bumped) in the initial mark pause,
+    // and no mutator release follows that pause: reset its allocator here as well.
+    common_prepare_func(mutator, _tls);
+    #[cfg(not(any(
+        feature = "marksweep_as_nonmoving",
+        feature = "immortal_as_nonmoving"
+    )))]
+    unsafe {
+        mutator.allocator_impl_mut_for_semantic::<ImmixAllocator<VM>>(
+            AllocationSemantics::NonMoving,
+        )
+    }
+    .reset();
 
     // Activate SATB
     if current_pause == Pause::InitialMark {
